@@ -177,9 +177,12 @@ def reproduce_battles(ctx, mode, rejects, reports=False, cap=25, module="BattleT
         args = ["battles-replay", "-in", src, "-out", os.path.join(d, "re")]
         if reports:
             args.append("-reports")
+        if tr[pos]["ev"] == "rot":
+            open(src, "w").write(json.dumps(tr[pos]) + "\n")
+            args = ["rot-replay", "-in", src, "-out", os.path.join(d, "re")]
         ctx.run_harness(args)
         re_file = os.path.join(d, "re.000.ndjson")
-        if not any(e["ev"] == "rot" for e in tr):
+        if True:
             r = ctx.tlc(module, cfg="BattleTrace.cfg", env=dict(VERIF_TRACE=re_file, VERIF_MODE=mode))
             if not r["rejects"]:
                 raise ToolError("rejection (%s) did not reproduce when the battle was re-executed alone" % sig)
@@ -291,6 +294,10 @@ def replay_battle(ctx, payload):
     args = ["battles-replay", "-in", src, "-out", os.path.join(d, "re")]
     if payload.get("reports"):
         args.append("-reports")
+    rots = [e for e in payload["trace"] if e["ev"] == "rot"]
+    if payload["mode"] == "C12" and rots:
+        open(src, "w").write(json.dumps(rots[-1]) + "\n")
+        args = ["rot-replay", "-in", src, "-out", os.path.join(d, "re")]
     ctx.run_harness(args)
     r = ctx.tlc("BattleTrace", env=dict(VERIF_TRACE=os.path.join(d, "re.000.ndjson"), VERIF_MODE=payload["mode"]))
     ctx.cov["traces_validated_against_impl"] = 1
